@@ -26,6 +26,7 @@ ASSUMPTIONS = common.BASE_ASSUMPTIONS + [
 ]
 EPS = 0.02
 SLACK = 0.6          # from "the operator processed the trigger" to "the daemon sees the flag"
+ESCALATION_SLACK = 2.0   # from 'the backoff is over' to 'the cancellation is thrown in' (re-check cycle, latencies)
 PAUSE_SLACK = 2.5    # peering event delivery + daemon_killer's 1s poll
 LONG_LIVED = ('obey', 'poll', 'cancel', 'ignore')
 
@@ -104,6 +105,36 @@ def oracle(run: runner.Run, oc: Outcome) -> None:
                     oc.add('C09/stages', 'cancelled-before-backoff',
                            f"daemon {hid} of {uid}: stop flag at t={flag_at:.4f}, cancelled at t={t_cancel:.4f}, "
                            f"i.e. before the cancellation backoff of {backoff}s elapsed", uid=uid, hid=hid)
+            # 2b. ... and the cancellation does come once the backoff is over (for those that do not obey the flag)
+            timeout = opts.get('cancellation_timeout')
+            if mode in ('cancel', 'ignore') and timeout is not None and flag_at is not None and not op.tearing_down:
+                t_due = flag_at + float(backoff or 0.0)
+                # a pause or the exit of the operator takes the stopping over and restarts its stages from then
+                for (t_on, _) in rival:
+                    if flag_at - PAUSE_SLACK <= t_on <= t_due + ESCALATION_SLACK:
+                        t_due = max(t_due, t_on + PAUSE_SLACK + float(backoff or 0.0))
+                if t_stop is not None and flag_at <= t_stop <= t_due + ESCALATION_SLACK:
+                    t_due = max(t_due, t_stop + float(backoff or 0.0))
+                t_seen_cancel = extra.get('first_cancel_at') if mode == 'ignore' else (c.t1 if c.outcome == 'cancelled' else None)
+                gone = min([x for x in (op.t_killed, op.exit[0] if op.exit else None) if x is not None], default=t_end)
+                alive_to = min(c.t1 if c.t1 is not None else t_end, gone, t_end)
+                if alive_to > t_due + ESCALATION_SLACK and (t_seen_cancel is None or t_seen_cancel > t_due + ESCALATION_SLACK):
+                    # did the reason to stop vanish meanwhile (the object matched again, the pause ended)?
+                    why_flag = str(extra.get('reason_at_flag'))
+                    vanished = False
+                    for s_ in steps.get((opid, uid), []):
+                        if flag_at < s_.t0 <= t_due + ESCALATION_SLACK and s_.etype != 'DELETED':
+                            v_ = snaps.get((uid, s_.rv))
+                            if v_ is not None and (v_.get('metadata') or {}).get('deletionTimestamp') is None \
+                                    and spawning.matches(h, v_) and 'FILTERS_MISMATCH' in why_flag:
+                                vanished = True
+                    if 'OPERATOR_PAUSING' in why_flag and any(t_off is not None and flag_at < t_off <= t_due + ESCALATION_SLACK + PAUSE_SLACK
+                                                              for (_, t_off) in rival):
+                        vanished = True
+                    oc.add('C09/stages', 'reason-vanished-while-stopping' if vanished else 'not-cancelled-after-backoff',
+                           f"daemon {hid} of {uid} (mode {mode}): stop flag at t={flag_at:.4f}, backoff={backoff}, so the "
+                           f"cancellation was due at t={t_due:.4f}; it came at {t_seen_cancel} (instance alive until "
+                           f"{alive_to:.3f}; reason at flag: {extra.get('reason_at_flag')})", uid=uid, hid=hid)
             # 4. an instance that exited on its own is not started again in this process
             if c.outcome == 'returned-own' and not c.stop_seen and k + 1 < len(calls):
                 oc.add('C09/restarted', 'after-own-exit',
